@@ -165,13 +165,13 @@ STRENGTHENED.update({
  "C10-r7m1": R7 + "TreeBidiMap.Map/Select store pairs without eviction: invisible to C10's histories (no enumerable calls), a C14 clause; caught by C14",
  "C12-r7m2": R7 + "AVL FromJSON builds the tree from the decoded map's keys without merging keys that are equal under a many-to-one comparator: C12 loads only with natural and reversed comparators; caught by the load ops of C01 and C02, whose documents hold several keys of one comparator class",
  "C02-r7m3": R7 + "missed at first by C02 (only fresh iterators; C08 caught it from the start); C02's forward and backward walks now run the same iterator off the end, rewind it and walk again",
- "C11-r7m3": R7 + "a load that fails after overwriting live slots (ArrayList FromJSON decodes into elements[:0]): C11's histories contain no failing loads; caught by C12 (atomic on error)",
+ "C11-r7m3": R7 + "missed at first by C11 (its histories contained no load that fails; C12 caught it from the start: atomic on error); the shared state scripts of C11, C12, C16 and C18 now contain loads of a well-formed document whose last element is mistyped (badload): rejected, and the state that is then round-tripped must be the one before",
  "C13-r7m1": R7 + "missed at first by C13 (derived operands used the identity Map only; C14 caught the defect in Map itself from the start); operands may now be derived by a many-to-one Map that lands on the same members ({2x, 2x+1} mapped by v/2)",
  "C14-r7m1": R7 + "missed at first by every check (results of Select/Map were compared through Values(), further Adds and fingerprints, never walked backwards or indexed from the tail); derived containers are now compared with a container built by plain insertions: backward iteration, and for lists Get at every index, Remove(size-2), Set(size-1), Insert(size-1, two values), Remove(size-1), Add",
  "C15-r7m2": R7 + "LinkedHashSet.Add with a value repeated inside one call lists it twice: Size()==len(Values()) still holds literally (both read the list), the membership clause is C04's; caught by C04",
  "C16-r7m1": R7 + "missed at first by every check (GetSortedValuesFunc was only given -1/0/+1 comparators); it is now also called with comparators whose results have magnitude 2..6, ascending and descending, and with a many-to-one order (permutation, non-decreasing under the comparator)",
 })
-CROSS.update({"C01-r7m1": ["C14"], "C03-r7m2": ["C16"], "C10-r7m1": ["C14"], "C12-r7m2": ["C01"], "C11-r7m3": ["C12"], "C15-r7m2": ["C04"]})
+CROSS.update({"C01-r7m1": ["C14"], "C03-r7m2": ["C16"], "C10-r7m1": ["C14"], "C12-r7m2": ["C01"], "C15-r7m2": ["C04"]})
 
 from concurrent.futures import ThreadPoolExecutor
 args = sys.argv[1:]
